@@ -218,3 +218,29 @@ def c10(ctx):
     return ctx.finish(explanation="type-number and size tables of the property-value codec recovered from MIR and compared pairwise and with the format; "
                       "information-flow rule on what is measured; conversion rule for the stored code page id; header byte counting; panic inventory. "
                       "Getter/setter value equality after reopen is not decided")
+
+
+@prop("C06")
+def c06(ctx):
+    from .rules import schema
+    schema.table_bits(ctx)
+    schema.bits_disjoint(ctx)
+    schema.info_schema(ctx)
+    schema.sep1(ctx)
+    schema.table_cat(ctx)
+    return ctx.finish(explanation="pack/unpack constants of the column type word, disjointness, attribute/position symmetry of the _Validation row between writer and reader, "
+                      "separator guard, category spelling tables. Equality of the reopened schema for all column lists is not decided")
+
+
+@prop("C02")
+def c02(ctx):
+    from .rules import schema, codec
+    codec.cell_codec(ctx)
+    codec.pool_codec(ctx)
+    schema.codec4(ctx)
+    schema.table_bits(ctx)
+    schema.gate_opt(ctx)
+    schema.ins1(ctx)
+    from .rules import propset
+    return ctx.finish(explanation="reader-side structure: cell widths, offset-binary constants, column-major nesting, reference-width threading, pool header bit and long-string escape, "
+                      "type-word masks and the 1-byte integer quirk, optional catalog streams, repeated-key rejection. That decoded values equal a foreign generator's is not decided")
